@@ -351,6 +351,53 @@ func genC07(env *core.Env, emit func(core.Case)) {
 			env.Count("retry-cut/" + outcome)
 		}
 	}
+	// a read deadline fires in the middle of a record, the caller moves the deadline and reads on while the
+	// rest of the client's bytes arrive: nothing the client sent is misread (the cut falls at every offset
+	// of a record that is still being inspected)
+	for _, accepted := range []bool{true, false} {
+		tail := gen.Cat(gen.Record(22, 0x0303, gen.Cat([]byte{11}, gen.RandBytes(r, 60))), gen.Record(20, 0x0303, []byte{1}), gen.Record(23, 0x0303, gen.RandBytes(r, 40)))
+		for cut := 1; cut < len(tail); cut += env.Pick(2, 1) {
+			idx++
+			keys, rec, _, reg := c07Hello(r, accepted)
+			s := connh.NewSess(keys)
+			reg(s)
+			res := s.New(oneChunk(rec), "eof")
+			w := ""
+			outcome := res.Err
+			if res.Err == "-" {
+				s.Read(70000)
+				s.Feed([][]byte{tail[:cut]}, "timeout")
+				var got []byte
+				sawTimeout := false
+				for i := 0; i < 50; i++ {
+					rd := s.Read(readSizes[(cut+i)%len(readSizes)])
+					got = append(got, rd.Data...)
+					if rd.Err == "io:timeout" {
+						if sawTimeout {
+							break
+						}
+						sawTimeout = true
+						s.Feed([][]byte{tail[cut:]}, "eof")
+						continue
+					}
+					if rd.Err != "-" {
+						outcome = rd.Err
+						if rd.Err != "io:eof" {
+							w = fmt.Sprintf("deadline at offset %d of a healthy stream, reading resumed: Read reports %s", cut, rd.Err)
+						}
+						break
+					}
+				}
+				if w == "" && !bytes.HasPrefix(tail, got) {
+					w = fmt.Sprintf("deadline at offset %d: the bytes delivered (%d) are not a prefix of what the client sent", cut, len(got))
+				}
+			}
+			s.X("a read deadline in the middle of a record does not make later reads misinterpret the stream", w)
+			emit(core.Case{Name: fmt.Sprintf("timeout-resume/%d", idx), Stream: "timeout-resume", Ops: s.Ops, Key: "timeout-resume",
+				Sig: fmt.Sprintf("timeout-resume/acc%v/%s/%s", accepted, cutClass(cut, tail), outcome), Sample: map[string]any{"accepted": accepted, "cut": cut, "outcome": outcome}})
+			env.Count("timeout-resume/" + outcome)
+		}
+	}
 	// several connections served by one process, their reads interleaved with small buffers: what one
 	// connection delivers must not depend on what the others are doing (buffers are per connection)
 	for rep := 0; rep < env.Pick(6, 60); rep++ {
